@@ -91,6 +91,10 @@ func (pe *PeriodicalExecutor) Sync(fn func()) {
 // Wait waits the execution to be done.
 func (pe *PeriodicalExecutor) Wait() {
 	pe.Flush()
+	// batches handed over to the background goroutine, but not yet registered in the wait group
+	for atomic.LoadInt32(&pe.inflight) > 0 {
+		time.Sleep(time.Millisecond)
+	}
 	pe.wgBarrier.Guard(func() {
 		pe.waitGroup.Wait()
 	})
@@ -129,8 +133,10 @@ func (pe *PeriodicalExecutor) backgroundFlush() {
 			select {
 			case vals := <-pe.commander:
 				commanded = true
-				atomic.AddInt32(&pe.inflight, -1)
+				// register the batch in the wait group before it stops counting as inflight,
+				// so that Wait always finds it in one of the two
 				pe.enterExecution()
+				atomic.AddInt32(&pe.inflight, -1)
 				pe.confirmChan <- lang.Placeholder
 				pe.executeTasks(vals)
 				last = timex.Now()
